@@ -35,7 +35,9 @@ func vfC12Desc(n, maxTok int, zoned bool, nzones int, now int64, symTimes bool) 
 		ro := vfBool("ro_" + id)
 		if symTimes && i < vfParam("hist", 8) {
 			reg = vfI64("reg_" + id)
-			vfAssume(vfAnd(reg >= 1, reg <= now))
+			// the query time may lie before the latest registrations (clock skew,
+			// `now` captured before the ring was read): up to 1000 s in the future
+			vfAssume(vfAnd(reg >= 1, reg <= now+1000))
 			rots = vfI64("rots_" + id)
 			vfAssume(vfAnd(rots >= 0, rots <= now))
 		}
